@@ -348,7 +348,8 @@ func walkExp(exp Exp, visitor ExpVisitor, path string) error {
 			}
 		}
 	case *MapExp:
-		for k, val := range exp.Value {
+		for _, k := range exp.sortedKeys() {
+			val := exp.Value[k]
 			p := path
 			if exp.Kind == KindStruct {
 				if p == "" {
